@@ -67,7 +67,7 @@ def run(rep, tier, seed, replay):
                     reqs.append(r)
                     meta.append({"schema": cs["sid"], "idl_type": cs["ty"], "proto": proto, "mode": mode, "fault": kind, "detail": detail,
                                  "def": "union" if cs["isunion"] else "struct", "has_list": bool(haslist[cs["sid"]].get(cs["ty"]))})
-    # protobuf generated messages: truncations and bit flips of canonical encodings
+    # protobuf messages (generated + the runtime-only kinds): truncations, bit flips and corrupted payloads of canonical encodings
     import pbcheck
     pfinds, pcov, pcases, pss, punits, sp = pbcheck.analyse(tier, seed)
     pcanon = [cs for cs in pcases if cs["kind"] == "canon" and cs["how"] == "v1" and len(cs["in"]) <= 500]
@@ -77,7 +77,7 @@ def run(rep, tier, seed, replay):
         trunc = [f for f in fl if f[0] == "truncate"]
         if tier == "quick" and len(trunc) > 40:
             trunc = rnd.sample(trunc, 40)
-        for kind, detail, data in trunc + [f for f in fl if f[0] != "truncate"]:
+        for kind, detail, data in trunc + [f for f in fl if f[0] != "truncate"] + list(faults.pb_payload_faults(cs["in"])):
             reqs.append({"id": len(reqs), "ty": path, "op": "decode", "input": data, "measure_leak": True, "alloc_limit": (1 << 20) + 1024 * len(data)})
             meta.append({"schema": cs["sid"], "idl_type": cs["ty"], "proto": "protobuf", "mode": "sync", "fault": kind, "detail": detail,
                          "def": "message", "has_list": False})
